@@ -111,6 +111,19 @@ def scan_forbidden():
     return bad
 
 
+def write_coqproject():
+    """_CoqProject lists every .v file under coq/theories (coqdep orders them)."""
+    files = []
+    for root, _, fs in os.walk(os.path.join(COQ, "theories")):
+        for f in fs:
+            if f.endswith(".v"):
+                files.append(os.path.relpath(os.path.join(root, f), COQ))
+    txt = "-Q theories PV\n" + "\n".join(sorted(files)) + "\n"
+    path = os.path.join(COQ, "_CoqProject")
+    if not os.path.exists(path) or open(path).read() != txt:
+        open(path, "w").write(txt)
+
+
 def ensure_built(targets=None):
     """Regenerate Gen/Consts.v from /repo, make the Coq project, extract and
     compile the OCaml driver.  Serialised by a file lock; incremental."""
@@ -120,6 +133,7 @@ def ensure_built(targets=None):
     try:
         from . import consts_gen
         consts_gen.regenerate()
+        write_coqproject()
         rc, out = sh("coq_makefile -f _CoqProject -o Makefile", cwd=COQ)
         if rc != 0:
             raise BuildError("coq_makefile", out)
